@@ -8,3 +8,7 @@ pub mod util;
 
 #[cfg(kani)]
 mod c06;
+#[cfg(kani)]
+mod gen_c06;
+#[cfg(kani)]
+mod gen_c13;
